@@ -117,27 +117,34 @@ func CheckSign(e *Env, prop string) (int, error) {
 		return 2, err
 	}
 	level := "exploration"
-	rule := "cases = (a) every case of the enumerated single-fault layer (error position 0..33 x error kind x delivery x signer kind, every partition with/without zero-length reads, every stuck payload, every candidate-class sequence of length <= 3, retry-limit streams, sampler error positions 0..96, RFC 6979 generator grid) and (b) seeded random multi-fault signing histories (<= 64 operations). distinct_nontrivial = number of distinct history digests (SHA-256 over every step's inputs and outputs) among runs in which at least one injected fault actually fired."
+	rule := "cases = (a) every case of the enumerated single-fault layer (error position 0..33 x error kind x delivery x signer kind, every partition with/without zero-length reads, every stuck payload, every candidate-class sequence of length <= 3, retry-limit streams, sampler error positions 0..96, RFC 6979 generator grid) and (b) seeded random multi-fault signing histories (<= 64 operations). evaluations = sampled histories + enumerated cases. distinct_nontrivial = (distinct history digests - SHA-256 over every step's inputs and outputs - among sampled histories in which at least one injected fault actually fired) + (enumerated cases with a distinct per-case digest in which a fault fired); digests are per shard, so identical cases in different shards would be counted twice (there are none by construction: each case has a distinct configuration)."
 	if prop == "C09" {
 		level = "fault_enumeration"
 	}
+	sampledNontrivial := len(a.NonTrivial) - a.ByWorld["signenum"]
+	if sampledNontrivial < 0 {
+		sampledNontrivial = 0
+	}
 	cov := map[string]any{
-		"evaluations":              a.Runs,
-		"distinct_nontrivial":      len(a.NonTrivial),
-		"rule":                     rule,
-		"samples":                  samplesFrom(traced, 3),
-		"operations_executed":      a.Ops,
-		"enumerated_fault_cases":   a.EnumCases,
-		"enumerated_layer_total":   a.EnumTotal,
-		"exhaustive":               false,
-		"exhaustive_note":          "the single-fault layer (enumerated_fault_cases == enumerated_layer_total) is enumerated completely on every run; the multi-fault histories are sampled",
-		"fault_kinds_fired":        a.Faults,
-		"reach_probes":             a.Probes,
-		"distinct_history_digests": len(a.Digests),
-		"runs_by_world":            a.ByWorld,
-		"simulated_time":           fmt.Sprintf("%d logical steps (signing operations; this world has no clock)", a.Steps),
-		"runs_per_hour":            int(float64(a.Runs) / time.Since(e.Start).Hours()),
-		"real_vs_stub":             "real: all of /repo (secec, secec/bitcoin, curve, field, assembly), Go crypto, x/crypto, tuplehash. stub: the entropy device (io.Reader) and crypto/rand.Reader when rand == nil. model: sim/ref (math/big).",
+		"evaluations":                           a.ByWorld["sign"] + a.EnumCases,
+		"distinct_nontrivial":                   sampledNontrivial + a.EnumDistinctNontrivial,
+		"sampled_histories":                     a.ByWorld["sign"],
+		"sampled_distinct_nontrivial_histories": sampledNontrivial,
+		"enumerated_distinct_nontrivial_cases":  a.EnumDistinctNontrivial,
+		"rule":                                  rule,
+		"samples":                               samplesFrom(traced, 3),
+		"operations_executed":                   a.Ops,
+		"enumerated_fault_cases":                a.EnumCases,
+		"enumerated_layer_total":                a.EnumTotal,
+		"exhaustive":                            false,
+		"exhaustive_note":                       "the single-fault layer (enumerated_fault_cases == enumerated_layer_total) is enumerated completely on every run; the multi-fault histories are sampled",
+		"fault_kinds_fired":                     a.Faults,
+		"reach_probes":                          a.Probes,
+		"distinct_history_digests":              len(a.Digests),
+		"runs_by_world":                         a.ByWorld,
+		"simulated_time":                        fmt.Sprintf("%d logical steps (signing operations; this world has no clock)", a.Steps),
+		"runs_per_hour":                         int(float64(a.Runs) / time.Since(e.Start).Hours()),
+		"real_vs_stub":                          "real: all of /repo (secec, secec/bitcoin, curve, field, assembly), Go crypto, x/crypto, tuplehash. stub: the entropy device (io.Reader) and crypto/rand.Reader when rand == nil. model: sim/ref (math/big).",
 		"violations_of_other_properties_seen_and_ignored": a.OtherProps,
 	}
 	ev := &Evidence{PropertyID: prop, Tier: e.Tier, Seed: int64(e.Seed), Level: level, Coverage: cov, WallS: time.Since(e.Start).Seconds(), Violations: out.violations,
